@@ -232,6 +232,11 @@ class C08(Driver):
                 cls = "C08/stale-thread-chan-entry/post-to-exited-thread" if stale else "C08/crash/failed-to-write-event-to-self-pipe"
                 return [Violation(cls, log[-600:])]
             tool, typ, fn = self.sanitizer_sig(log)
+            if stale:
+                # use-after-free of the waiter's fiber / VM, close() of a self-pipe racing with a write to it, ...:
+                # every memory error or race in a run that contains a stale pending entry goes through the dangling
+                # pointers of that entry (recorded finding)
+                return [Violation("C08/stale-thread-chan-entry/memory-error-or-race", "%s %s in %s: %s" % (tool, typ, fn, log[-1200:]))]
             if oc.startswith("crash") and "Sanitizer" not in log:
                 return [Violation("C08/crash/%s%s" % (oc, "/after-abandoned-thread-chan-wait" if stale else ""), log[-800:])]
             if tool == "tsan" and typ.startswith("lock-order-inversion") and "cfun_channel_choice" in log:
